@@ -39,7 +39,7 @@ def untag(x, E):
 
 
 # ------------------------------------------------------------------ tagged raw transitions (direct mode)
-def make_transition(t, step, E, style, dkey="done"):
+def make_transition(t, step, E, style, dkey="done", okind="vector"):
     """raw transition of stream position t exactly as train_off_policy builds it.
     step = [[reward, done] per env]"""
     ACT, NXT = BASES["direct"]
@@ -49,6 +49,9 @@ def make_transition(t, step, E, style, dkey="done"):
     act = (ids + ACT).astype(np.int64)
     rew = np.array([s[0] for s in step], dtype=np.float64)
     done = np.array([bool(s[1]) for s in step])
+    if okind == "dict":            # Dict observation space: nested TensorDict for obs / next_obs
+        obs = {"a": obs, "b": ids.copy()}
+        nxt = {"a": nxt, "b": ids + NXT}
     if style == "single":          # is_vectorised = False: scalars, then unsqueeze(0)
         assert E == 1
         tr = Transition(obs=obs[0], action=act[0], reward=float(rew[0]), next_obs=nxt[0], done=bool(done[0]))
@@ -96,8 +99,13 @@ def decode_rows(td, kind, dkey="done"):
     """TensorDict with leading dim m -> list of rows [ob, ac, reward(float, exact), nx, done] or None (never written)"""
     ACT, NXT = BASES[kind]
     m = td.shape[0]
-    ob = dec_obs(td["obs"], 0)
-    nx = dec_obs(td["next_obs"], NXT)
+    def dec_any(o, base):
+        if isinstance(o, torch.Tensor):
+            return dec_obs(o, base)
+        a, b = dec_obs(o["a"], base), dec_scalar(o["b"], base)       # both members must carry the same tag
+        return [x if x == y else BAD for x, y in zip(a, b)]
+    ob = dec_any(td["obs"], 0)
+    nx = dec_any(td["next_obs"], NXT)
     ac = dec_scalar(td["action"], ACT)
     rw = np.asarray(td["reward"], dtype=np.float64).reshape(m, -1)
     dn = np.asarray(td[dkey], dtype=np.float64).reshape(m, -1)
@@ -201,6 +209,9 @@ class C10(vlib.Driver):
         cases = []
         self.exhaustive = True
         maxlen = 6 if tier == "quick" else 8
+        self.notes = [f"exhaustive sub-run: one environment, every placement of done flags for stream lengths 1..{maxlen} "
+                      f"(n up to {4 if tier == 'quick' else 5}; gamma 1/2 and 1 to the full length, gamma 0 and 0.99 to length {maxlen - 1}); "
+                      "the vectorised and training-loop cases are seeded, not exhaustive"]
         ns = [1, 2, 3, 4] if tier == "quick" else [1, 2, 3, 4, 5]
         # one environment, every placement of done flags
         for L in range(1, maxlen + 1):
@@ -229,7 +240,8 @@ class C10(vlib.Driver):
             stream = [[[rng.randint(-16, 16) / 4.0, 1 if rng.random() < p else 0] for _ in range(E)] for _ in range(L)]
             cases.append({"kind": "direct", "n": n, "gamma": g, "cap": cap, "E": E, "style": "vector",
                           "stream": stream, "every": 1 if L <= 12 else 3,
-                          "dkey": ["done", "done", "terminated", "termination"][i % 4]})
+                          "dkey": ["done", "done", "terminated", "termination"][i % 4],
+                          "okind": "dict" if i % 5 == 4 else "vector"})
         # the real training loop
         ntrain = 16 if tier == "quick" else 120
         for i in range(ntrain):
@@ -259,7 +271,7 @@ class C10(vlib.Driver):
         trace = []
         L = len(case["stream"])
         for t, step in enumerate(case["stream"]):
-            td = make_transition(t, step, E, case["style"], dkey)
+            td = make_transition(t, step, E, case["style"], dkey, case.get("okind", "vector"))
             # --- the pairing of train_off_policy
             one = nbuf.add(td)
             if one is not None:
@@ -515,7 +527,7 @@ class C10(vlib.Driver):
 
     def classify(self, case, obs):
         labs = [f"kind={case['kind']}", f"n={case['n']}", f"gamma={case['gamma']}", f"envs={case['E']}", f"cap={case['cap']}",
-                f"style={case['style']}", f"done-key={case.get('dkey', 'done')}", f"len={len(case['stream']) if len(case['stream']) <= 8 else '>8'}"]
+                f"style={case['style']}", f"done-key={case.get('dkey', 'done')}", f"obs={case.get('okind', 'vector')}", f"len={len(case['stream']) if len(case['stream']) <= 8 else '>8'}"]
         if case["kind"] == "train":
             labs.append(f"train-site:{'learn_step>envs' if case.get('learn_step', 1) > case['E'] else 'learn_step<=envs'}:{'per' if case.get('per') else 'uniform'}")
         nb = sum(1 for rec in obs["trace"] if rec.get("smp"))
